@@ -543,7 +543,7 @@ def oracle_c12(res, i):
         armed, excused = False, False
         for j in range(i):
             t = res['script'][j].split()[0]
-            if t == 'fault':
+            if t == 'fault' and 'pause:' not in res['script'][j]:     # (a stalled operation is not a failed one)
                 armed, excused = True, True
             elif t == 'clearfaults':
                 armed = False
@@ -609,8 +609,9 @@ def sync_features(lines):
 
 
 PROPS['C12'] = dict(
-    gen=lambda rng, tier: (gen.sync_scenario if rng.random() < 0.7 else
-                           gen.sync_rotation_scenario if rng.random() < 0.5 else gen.sync_fault_scenario)(rng, size=tier),
+    gen=lambda rng, tier: (gen.sync_scenario if rng.random() < 0.65 else
+                           gen.sync_rotation_scenario if rng.random() < 0.4 else
+                           gen.sync_fault_scenario if rng.random() < 0.6 else gen.sync_stall_scenario)(rng, size=tier),
     p_cmds={'trace', 'fstates', 'fsync', 'close', 'open', 'dirty'},
     impl_only_cmds={'fstates'}, impl_only_if_ct={'trace'},   # ct: markers into several closed blobs are issued concurrently
     oracle_cmds={'states'}, py_oracle=oracle_c12,
